@@ -375,7 +375,8 @@ class ExportDataset:
         # correct index later
         self.__station_id_to_index_mapping = {}
         for i, id in enumerate(output_station_ids):
-            station_id_var[i, :] = list(id)
+            # Ids may be shorter than the character dimension
+            station_id_var[i, : len(id)] = list(id)
             self.__station_id_to_index_mapping[id] = i
 
         # now write the stored attributes
